@@ -14,3 +14,9 @@ import (
 func VerifC22FindOriginalTask(state *core.BuildState, target core.BuildLabel) {
 	findOriginalTask(state, target, true, cli.HostArch())
 }
+
+// VerifC22FindOriginalTaskSet runs the unexported findOriginalTaskSet - the loop that feeds every command-line
+// label to findOriginalTask - for a whole command line on the host architecture.
+func VerifC22FindOriginalTaskSet(state *core.BuildState, targets []core.BuildLabel) {
+	findOriginalTaskSet(state, targets, true, cli.HostArch())
+}
